@@ -72,7 +72,75 @@ def import_glotaran():
     here = os.path.abspath(glotaran.__file__)
     if not here.startswith(REPO + os.sep):
         raise HarnessError(f"glotaran imported from {here}, expected under {REPO}")
+    install_order_seams()
     return glotaran
+
+
+class InsertionOrderedSet:
+    """Minimal set whose iteration order is insertion order (not memory addresses)."""
+
+    def __init__(self, iterable=()):
+        self._d = dict.fromkeys(iterable)
+
+    def add(self, x):
+        self._d[x] = None
+
+    def update(self, *others):
+        for o in others:
+            for x in o:
+                self._d[x] = None
+
+    def __ior__(self, other):
+        self.update(other)
+        return self
+
+    def __or__(self, other):
+        new = InsertionOrderedSet(self._d)
+        new.update(other)
+        return new
+
+    def __iter__(self):
+        return iter(self._d)
+
+    def __len__(self):
+        return len(self._d)
+
+    def __contains__(self, x):
+        return x in self._d
+
+    def __repr__(self):
+        return f"InsertionOrderedSet({list(self._d)})"
+
+
+_ORDER_SEAMS_INSTALLED = False
+
+
+def install_order_seams():
+    """Put the one address-dependent iteration order of the model layer behind a seam.
+
+    ``load_model`` builds a *set of megacomplex classes* and ``Model.create_class_from_megacomplexes`` a set of
+    dataset-model classes; classes hash by address, so the attribute order of the generated model class (and with it
+    the sequence of source lines an evaluation executes) differs from process to process.  Nothing numerical depends
+    on it, but line-level fault injection and exact replay do.  The simulator fixes the order: classes sorted by
+    qualified name, sets in insertion order.  Missing seams are tolerated (a refactoring may have removed the sets).
+    """
+    global _ORDER_SEAMS_INSTALLED
+    if _ORDER_SEAMS_INSTALLED:
+        return
+    _ORDER_SEAMS_INSTALLED = True
+    try:
+        import glotaran.model.model as mm
+
+        orig = mm.Model.__dict__["create_class_from_megacomplexes"].__func__
+
+        def create_class_from_megacomplexes(cls, megacomplexes):
+            ordered = sorted(megacomplexes, key=lambda c: (c.__module__, c.__qualname__))
+            return orig(cls, ordered)
+
+        mm.Model.create_class_from_megacomplexes = classmethod(create_class_from_megacomplexes)
+        mm.set = InsertionOrderedSet  # module-level name shadows the builtin inside glotaran.model.model only
+    except Exception:  # noqa: BLE001 - seam not available in this tree
+        pass
 
 
 class HarnessError(Exception):
